@@ -233,6 +233,7 @@ class Ctx:
         return ["-modfile=" + alt]
 
     def go_build(self, pkg, name, tags="verif", race=False):
+        self._pipe_acquire()   # extractors may (re)generate Go sources too (go/internal/msgs/msgs_gen.go)
         out = os.path.join(BUILD, name)
         try: os.remove(out)
         except FileNotFoundError: pass
